@@ -4,6 +4,8 @@
   seedtest.py validate <dir>            # <dir> has patch.diff, demo.py: confirm applies, suite passes, demo fails with / passes without
   seedtest.py run <dir> [ID ...]        # run harness/check for the property in meta.json (or the given ids) against the patched copy
   seedtest.py all [--tier quick]        # every /verif/seeded/*: run its property's check; print a table caught/missed
+  seedtest.py allp [--only a,b] [--jobs N]  # the same IN PARALLEL: each seed runs in a private rsync copy of /verif under /tmp
+                                        # (own Generated/ and .lake, so runs do not disturb each other or checks running in /verif)
 
 The patched tree is a scratch copy under /tmp (VERIF_REPO points the check at it); it is removed afterwards, and the
 Generated/*.lean files are regenerated from /repo at the end so the lake project is back in step with the real tree."""
@@ -80,6 +82,36 @@ if __name__ == "__main__":
         print(json.dumps(validate(sys.argv[2]), indent=1))
     elif cmd == "run":
         print(json.dumps(run(sys.argv[2], sys.argv[3:] or None), indent=1))
+    elif cmd == "allp":
+        import concurrent.futures as cf
+        jobs = int(sys.argv[sys.argv.index("--jobs") + 1]) if "--jobs" in sys.argv else 6
+        only = sys.argv[sys.argv.index("--only") + 1].split(",") if "--only" in sys.argv else None
+        root = os.path.join(V, "seeded")
+        names = [n for n in sorted(os.listdir(root)) if os.path.exists(os.path.join(root, n, "meta.json")) and (not only or any(o in n for o in only))]
+
+        def one(arg):
+            i, name = arg
+            time.sleep(3 * (i % jobs))   # concurrent `git worktree add` on /repo races: stagger the starts
+            c = tempfile.mkdtemp(prefix="vseed-")
+            try:
+                sh(["rsync", "-a", "--exclude", ".git", "--exclude", "evidence/replay", V + "/", c + "/"])
+                p = sh(["python3", os.path.join(c, "harness", "seedtest.py"), "run", os.path.join(c, "seeded", name)], timeout=7200)
+                try:
+                    return name, json.loads(p.stdout)
+                except ValueError:
+                    return name, {"error": (p.stdout + p.stderr)[-300:]}
+            finally:
+                shutil.rmtree(c, ignore_errors=True)
+        rows = []
+        with cf.ThreadPoolExecutor(jobs) as ex:
+            for name, res in ex.map(one, enumerate(names)):
+                if "error" in res:
+                    print("%-28s ERROR %s" % (name, res["error"]), flush=True)
+                    continue
+                for pid, r in res.items():
+                    rows.append((name, pid, "CAUGHT" if r["caught"] else ("no-check" if r["rc"] is None else "missed"), "input" if r["with_input"] else "-", r["wall"]))
+                    print("%-28s %s %-7s %-6s %6.1fs" % rows[-1], flush=True)
+        json.dump(rows, open(os.path.join(V, "seeded", "RESULTS%s.json" % ("-partial" if only else "")), "w"), indent=1)
     elif cmd == "all":
         tier = sys.argv[sys.argv.index("--tier") + 1] if "--tier" in sys.argv else "quick"
         root = os.path.join(V, "seeded")
